@@ -185,6 +185,7 @@ pub fn make_client(
         .identity_provider(ident.clone())
         .crypto_provider(crypto)
         .extension_type(mls_rs::extension::ExtensionType::new(0xF0F0))
+        .custom_proposal_type(mls_rs::group::proposal::ProposalType::new(0xF0F1))
         .signing_identity(id, sk.clone(), suite)
         .build();
     (client, ctl, gs, kp, psk, ident, sk.as_bytes().to_vec(), pk.as_bytes().to_vec())
